@@ -72,6 +72,17 @@ CHECKS.update({
           "DESIGN.md section 5, C17"),
 })
 
+CHECKS.update({
+ "C19": E("runtime oracle: to_yaml -> file -> from_yaml_file round trip, harness-written syntax variants of the documented format with known expected values, and seeded file mutators under catch_unwind for the no-panic clause",
+          "Exploration: 8e3 / 4e5 round trips, 1.2e4 / 6e5 syntax variants, 2e4 / 2e6 malformed files.",
+          "Trusted base: the harness's YAML writer; Rust's f64 Display/parse round trip. Files under /verif/target/tmp.",
+          "DESIGN.md section 5, C19"),
+ "C20": E("runtime oracle: URDF/xacro text generated from OPW values in every supported layout / naming / ordering / nesting variant, extraction compared with the generator; fault injection and seeded mutators under catch_unwind for the error clauses",
+          "Exploration: 1.5e4 / 6e5 generated descriptions, 6e3 / 2e5 faulty ones (missing joint, conflicting duplicate, malformed XML/xyz), 1e4 / 1e6 mutants.",
+          "Trusted base: the harness's URDF writer. Geometry with c2 = 0 (or a2 = 0 in the c3-on-joint-4 layout) is ambiguous for the extractor's heuristics and is not generated.",
+          "DESIGN.md section 5, C20"),
+})
+
 def main():
     props = [json.loads(l) for l in open('/verif/properties.jsonl')]
     hooks_commits = subprocess.run(['git','-C','/repo','log','--format=%H %s'],capture_output=True,text=True).stdout.splitlines()
